@@ -108,6 +108,7 @@ type scenario struct {
 	LayoutRoot []*gen.Cert
 	LayoutInt  []*gen.Cert
 	CallerInt  []*gen.Cert
+	OneFile    bool // the caller's intermediates come as one PEM input holding all of them (a chain file)
 	ChainValid bool
 	Cons       []intoto.CertificateConstraint
 	ConsName   string
@@ -174,6 +175,11 @@ func (w *world) chainScenarios() []scenario {
 			add(fmt.Sprintf("two-intermediates-i1-%s-i2-%s", an, bn), cl, l2, roots, li, ci, a != 2 && b != 2)
 		}
 	}
+	// both intermediates from the caller in one chain file, in either order; and one of them missing from it
+	out = append(out, scenario{Name: "two-intermediates-one-caller-file-i1-i2", Class: "two-intermediates-chain-file", Leaf: l2, Attr: leafAttr, LayoutRoot: roots, CallerInt: []*gen.Cert{i1, i2}, OneFile: true, ChainValid: true})
+	out = append(out, scenario{Name: "two-intermediates-one-caller-file-i2-i1", Class: "two-intermediates-chain-file", Leaf: l2, Attr: leafAttr, LayoutRoot: roots, CallerInt: []*gen.Cert{i2, i1}, OneFile: true, ChainValid: true})
+	out = append(out, scenario{Name: "chain-file-with-foreign-certificate-first", Class: "two-intermediates-chain-file", Leaf: l2, Attr: leafAttr, LayoutRoot: roots, CallerInt: []*gen.Cert{w.froot, i2, i1}, OneFile: true, ChainValid: true})
+	out = append(out, scenario{Name: "chain-file-lacks-i1", Class: "two-intermediates-one-missing", Leaf: l2, Attr: leafAttr, LayoutRoot: roots, CallerInt: []*gen.Cert{w.froot, i2}, OneFile: true, ChainValid: false})
 	add("leaf-expired", "validity", gen.NewCert(leafKey, w.root, leafAttr, false, w.nb, past), roots, nil, nil, false)
 	add("leaf-not-yet-valid", "validity", gen.NewCert(leafKey, w.root, leafAttr, false, future, w.na), roots, nil, nil, false)
 	ie := gen.NewCert(i1k, w.root, gen.Attr{CN: "i1"}, true, w.nb, past)
@@ -308,6 +314,13 @@ func layoutFor(sc *scenario) intoto.Layout {
 
 func callerPems(sc *scenario) [][]byte {
 	var out [][]byte
+	if sc.OneFile {
+		var all []byte
+		for _, c := range sc.CallerInt {
+			all = append(all, c.PEM...)
+		}
+		return [][]byte{all}
+	}
 	for _, c := range sc.CallerInt {
 		out = append(out, c.PEM)
 	}
@@ -549,7 +562,7 @@ var _ = strings.Join
 func init() {
 	mcx.Register(&mcx.Driver{
 		ID: "C07", Run: run, Replay: replay, Workers: 8,
-		Rule: "(a) every chain shape of a 29-element catalogue (direct, 1-2 intermediates located in layout / passed by caller / missing, expired, not yet valid, foreign root, same-subject foreign root, foreign chain with its intermediate in layout or from the caller, non-CA issuer, root absent, two roots, self-signed, no roots) x 9 constraint lists (none, wildcard, exact, wrong, wrong+wildcard, split common-name/DNS, three) observed at Step.CheckCertConstraints and through InTotoVerify on a certificate-signed link; " +
+		Rule: "(a) every chain shape of a 33-element catalogue (direct, 1-2 intermediates located in layout / passed by caller one per input or as one chain file in either order, also behind a foreign certificate / missing, expired, not yet valid, foreign root, same-subject foreign root, foreign chain with its intermediate in layout or from the caller, non-CA issuer, root absent, two roots, self-signed, no roots) x 9 constraint lists (none, wildcard, exact, wrong, wrong+wildcard, split common-name/DNS, three) observed at Step.CheckCertConstraints and through InTotoVerify on a certificate-signed link; " +
 			"(a') for every chain shape that must be refused and shares its leaf certificate with an accepted shape: the accepted one first, then the refused one, in one process; (b) each of the five attributes deviating alone from an all-wildcard constraint: certificate values {absent,[a],[a,b],[a,a]} x constraint {*,[],nil,[\"\"],[a],[b],[a,b],[b,a],[a,b,c],[*,a],[a,a]} (thorough: every pair of attributes); (d) seven root constraints x valid/invalid chain with two layout roots. " +
 			"Distinct by construction; non-trivial = the reference decides (duplicated values/constraint entries with equal sets and non-wildcard root constraints in the completeness direction are don't-care). states = scenarios, transitions = constraints evaluated.",
 		Assumptions: []string{
